@@ -396,6 +396,29 @@ fn one_case(prop: &str, g: &mut Gen, cx: &mut Ctx) {
                         }
                         let got: Vec<i64> = s.days().map(i64::from).collect();
                         cx.check(got == days, || format!("{ct} month_shape({y},{m}).days() = {got:?}, expected {days:?}"));
+                        // the same list through the methods the iterator traits provide (an
+                        // implementation may override any of them)
+                        cx.check(
+                            s.days().count() == days.len()
+                                && s.days().last().map(i64::from) == days.last().copied()
+                                && s.days().max().map(i64::from) == days.last().copied()
+                                && s.days().min().map(i64::from) == days.first().copied()
+                                && s.days().nth(2).map(i64::from) == days.get(2).copied()
+                                && s.days().nth_back(2).map(i64::from) == days.iter().rev().nth(2).copied()
+                                && s.days().skip(1).step_by(3).map(i64::from).eq(days.iter().copied().skip(1).step_by(3))
+                                && s.days().fold(0i64, |a, x| a + i64::from(x)) == days.iter().sum::<i64>()
+                                && s.days().rev().map(i64::from).eq(days.iter().rev().copied()),
+                            || format!("{ct} month_shape({y},{m}).days(): count/last/max/min/nth/nth_back/step_by/fold/rev disagree with the day list {days:?}"),
+                        );
+                        let dd: Vec<i64> = s.dates().map(|d| i64::from(d.day())).collect();
+                        cx.check(
+                            s.dates().count() == dd.len()
+                                && s.dates().last().map(|d| i64::from(d.day())) == dd.last().copied()
+                                && s.dates().nth(2).map(|d| i64::from(d.day())) == dd.get(2).copied()
+                                && s.dates().rev().map(|d| i64::from(d.day())).eq(dd.iter().rev().copied())
+                                && (dd == days || y.abs() > 5_870_000),
+                            || format!("{ct} month_shape({y},{m}).dates(): count/last/nth/rev disagree with the day list {days:?}"),
+                        );
                         let mut rev: Vec<i64> = s.days().rev().map(i64::from).collect();
                         rev.reverse();
                         cx.check(rev == days, || format!("{ct} month_shape({y},{m}).days().rev() wrong"));
